@@ -55,12 +55,17 @@ static void do_op(char *p) {
   long x = hwv_tokl(&p), y = hwv_tokl(&p);
   int nr = (int)hwv_tokl(&p), i, ret = 0;
   long rl[64], rh[64];
-  unsigned long masks[64]; unsigned nwords = 0, w;
+  unsigned long masks[64], xmask = 0; unsigned nwords = 0, w;
   memset(masks, 0, sizeof masks);
   for (i = 0; i < nr && i < 64; i++) {
     long k;
     rl[i] = hwv_tokl(&p); rh[i] = hwv_tokl(&p);
     for (k = rl[i]; k <= rh[i] && k < 64 * 64; k++) masks[k / 64] |= 1UL << (k % 64);
+  }
+  /* the word given to from_ith_ulong / set_ith_ulong is the part of the ranges that falls into word x (x may be far beyond masks[]) */
+  for (i = 0; i < nr && i < 64; i++) {
+    long k, lo = rl[i] > 64 * x ? rl[i] : 64 * x, hi = rh[i] < 64 * x + 63 ? rh[i] : 64 * x + 63;
+    for (k = lo; x >= 0 && k <= hi; k++) xmask |= 1UL << (k % 64);
   }
   if (!name || d < 1 || d > R) return;
   errno = 0;
@@ -73,8 +78,8 @@ static void do_op(char *p) {
   else if (!strcmp(name, "set_range")) ret = hwloc_bitmap_set_range(reg[d], (unsigned)x, (int)y);
   else if (!strcmp(name, "clr_range")) ret = hwloc_bitmap_clr_range(reg[d], (unsigned)x, (int)y);
   else if (!strcmp(name, "from_ulong")) ret = hwloc_bitmap_from_ulong(reg[d], masks[0]);
-  else if (!strcmp(name, "from_ith_ulong")) ret = hwloc_bitmap_from_ith_ulong(reg[d], (unsigned)x, masks[x]);
-  else if (!strcmp(name, "set_ith_ulong")) ret = hwloc_bitmap_set_ith_ulong(reg[d], (unsigned)x, masks[x]);
+  else if (!strcmp(name, "from_ith_ulong")) ret = hwloc_bitmap_from_ith_ulong(reg[d], (unsigned)x, xmask);
+  else if (!strcmp(name, "set_ith_ulong")) ret = hwloc_bitmap_set_ith_ulong(reg[d], (unsigned)x, xmask);
   else if (!strcmp(name, "from_ulongs")) { nwords = (unsigned)x; ret = hwloc_bitmap_from_ulongs(reg[d], nwords, masks); }
   else if (!strcmp(name, "copy")) ret = hwloc_bitmap_copy(reg[d], reg[a]);
   else if (!strcmp(name, "dup")) { hwloc_bitmap_t n = hwloc_bitmap_dup(reg[a]); hwloc_bitmap_free(reg[d]); reg[d] = n; ret = n ? 0 : -1; }
